@@ -608,8 +608,12 @@ static std::string run_ops(const std::vector<Op>& ops, Report& rep, Stats* out =
   for (size_t k = 0; k < ops.size() && err.empty(); k++) {
     g_cur_step = k;
     g_tally.steps++;
-    err = apply(w, ops[k], st);
-    if (err.empty()) err = check_all(w);
+    try {
+      err = apply(w, ops[k], st);
+      if (err.empty()) err = check_all(w);
+    } catch (const std::exception& e) {   // only TrackedThrow is scripted (and caught in guarded); anything else is a corrupted element
+      err = std::string("unexpected-exception: ") + e.what();
+    }
     if (!err.empty()) err += " at step " + std::to_string(k) + " (" + op_text(ops[k]) + ")";
   }
   if (err.empty()) {
